@@ -27,6 +27,7 @@ import (
 	"context"
 	"fmt"
 	"os"
+	"sync"
 )
 
 func (v *loggerPlus) Println(ctx Context, a ...interface{}) {
@@ -69,11 +70,17 @@ type key string
 var cidKey key = "cid.logger.ossrs.org"
 
 var gCid int = 999
+var gCidLock sync.Mutex
 
 // Create context with value.
 func WithContext(ctx context.Context) context.Context {
+	// The contexts may be created by goroutines of different connections.
+	gCidLock.Lock()
 	gCid += 1
-	return context.WithValue(ctx, cidKey, gCid)
+	cid := gCid
+	gCidLock.Unlock()
+
+	return context.WithValue(ctx, cidKey, cid)
 }
 
 // Create context with value from parent, copy the cid from source context.
